@@ -333,6 +333,34 @@ if names:
                     continue
                 ck.violation("testdata:%s:%s" % (kind, canon(detail)), "staticcheck (all analyzers) over the testdata module: %s %s" % (kind, detail[:300]), {"stderr": se[:3000]})
 
+# warm cache with damaged output files: the first runs populated STATICCHECK_CACHE; delete / truncate a seeded
+# sample of the cache's output (-d) files (their index entries survive) and lint the unchanged generated module again.
+# A damaged cache entry must behave like a miss: same oracle.
+dfiles = sorted(f for f in glob.glob(os.path.join(SCENV["STATICCHECK_CACHE"], "**", "*-d"), recursive=True) if os.path.isfile(f))
+prng2 = random.Random(ck.seed * 7919 + 1)
+prng2.shuffle(dfiles)
+ndel = ntrunc = 0
+for i, f in enumerate(dfiles[:(400 if ck.thorough() else 60)]):
+    try:
+        if i % 2 == 0 or os.path.getsize(f) == 0:
+            os.remove(f); ndel += 1
+        else:
+            os.truncate(f, os.path.getsize(f) // 2); ntrunc += 1
+    except OSError:
+        pass
+rc, so, se = run_sc(mod, ["./..."])
+bad = judge(rc, so, se)
+real_runs.append({"corpus": "generated, warm cache with %d of %d output files deleted and %d truncated" % (ndel, len(dfiles), ntrunc),
+                  "packages": len(pkgs), "rc": rc, "bad": len(bad), "diagnostics": ndiag(so)})
+ck.log("real binary over generated module, damaged warm cache (%d deleted, %d truncated of %d): rc=%d bad=%d" % (ndel, ntrunc, len(dfiles), rc, len(bad)))
+for kind, detail in bad[:4]:
+    if already(kind, detail):
+        continue
+    ck.violation("warm-cache-damaged:%s:%s" % (kind, canon(re.sub(r"[0-9a-f]{40,}", "<id>", detail))),
+                 "staticcheck (all analyzers) over the unchanged generated module with a warm cache whose output files were partly deleted/truncated: %s %s" % (kind, detail[:300]),
+                 {"deleted": ndel, "truncated": ntrunc, "seed": ck.seed, "stderr": se[:3000],
+                  "rerun": "lint a module twice with the same STATICCHECK_CACHE, removing or truncating *-d files of the cache between the runs"})
+
 if ck.thorough():
     rc, so, se = run_sc(REPO, ["std"], timeout=7200)
     bad = judge(rc, so, se)
